@@ -160,6 +160,7 @@ type mop struct { // one model operation with its observation
 	aux    uint64
 	pos    uint64
 	after  listing
+	safe   bool // a TXID retention whose floor is the one the snapshot pass returned (cascade by hand)
 }
 
 type World struct {
@@ -174,6 +175,8 @@ type World struct {
 	client                                  *file.ReplicaClient
 	arch                                    *file.ReplicaClient
 	rng                                     *rand.Rand
+	forceL0                                 string    // "" random | "off" | "far": what chooseL0R returns (directed scenarios)
+	forceAge                                int64     // >= 0: the injected age a retention threshold is placed half a unit after
 	far                                     time.Time // stands for "now" where the code reads the clock to age files: later than every stamp
 	cn                                      *canon
 	ops                                     []mop
@@ -197,7 +200,7 @@ func newWorld(dir string, rng *rand.Rand, start time.Time) (*World, error) {
 	w := &World{dir: dir, dbPath: filepath.Join(dir, "db"), replicaDir: filepath.Join(dir, "replica"),
 		archDir: filepath.Join(dir, "arch"), tmp: filepath.Join(dir, "tmp"), rng: rng,
 		srcDigest: map[uint64]string{}, archDigest: map[uint64]string{}, counts: map[string]int{},
-		retFree: true, noRestamp: map[string]bool{}}
+		retFree: true, noRestamp: map[string]bool{}, forceAge: -1}
 	os.MkdirAll(w.tmp, 0o755)
 	w.pageSize = []int{512, 1024, 4096, 4096}[rng.Intn(4)]
 	w.nlv = 1 + rng.Intn(3)
@@ -548,9 +551,14 @@ func (w *World) opSync() {
 // threshold time.Now().Add(-L0Retention) the code will compute (up to the few
 // microseconds between here and there; no stamp lies that close).
 func (w *World) chooseL0R() []tval {
-	if focus == "c06" {
+	if focus == "c06" || w.forceL0 == "off" {
 		w.ldb.L0Retention = 0
 		return nil
+	}
+	if w.forceL0 == "far" {
+		time.Sleep(2 * time.Millisecond)
+		w.ldb.L0Retention = time.Nanosecond
+		return []tval{w.cn.of(w.far)}
 	}
 	switch k := w.rng.Intn(10); {
 	case k < 3:
@@ -663,6 +671,9 @@ func (w *World) opSnapshot() {
 // a retention timestamp around the stamps of the existing snapshots
 func (w *World) chooseTS() tval {
 	snaps := w.listing().level(9)
+	if w.forceAge >= 0 {
+		return w.cn.of(w.cn.inj(w.forceAge).Add(unit / 2))
+	}
 	if len(snaps) > 0 && (w.style == "real" || w.rng.Intn(3) == 0) && w.rng.Intn(5) != 0 {
 		// at / 1 ms before / 1 ms after the stamp of an existing snapshot
 		s := snaps[w.rng.Intn(len(snaps))]
@@ -751,7 +762,11 @@ func (w *World) opL0Ret() {
 func (w *World) opStoreSnapRet() {
 	// Store.EnforceSnapshotRetention reads the clock: timestamp = now - SnapshotRetention
 	var ts tval
-	if w.style == "real" || w.rng.Intn(5) == 0 {
+	if w.forceAge >= 0 {
+		target := w.cn.inj(w.forceAge).Add(unit / 2)
+		ts = w.cn.of(target)
+		w.store.SnapshotRetention = time.Since(target)
+	} else if w.style == "real" || w.rng.Intn(5) == 0 {
 		if w.rng.Intn(2) == 0 {
 			time.Sleep(2 * time.Millisecond)
 			ts = w.cn.of(w.far)
@@ -925,7 +940,14 @@ func (w *World) archiveDigest(k uint64) (string, bool) {
 // txidOracle: Restore(TXID=k) from the replica (any mix of levels) = restore of the L0 chain 1..k.
 func (w *World) txidOracle(when string) {
 	pos := w.pos()
+	stride := uint64(1)
+	if focus != "c06" && pos > 6 {
+		stride = (pos + 5) / 6 // C06's business: the other checks keep a sample (always including pos)
+	}
 	for k := uint64(1); k <= pos; k++ {
+		if (pos-k)%stride != 0 {
+			continue
+		}
 		img, err := restore(w.replicaDir, filepath.Join(w.tmp, "txid.db"), k, time.Time{})
 		if err != nil {
 			if errors.Is(err, litestream.ErrTxNotAvailable) || strings.Contains(err.Error(), "transaction not available") {
@@ -981,10 +1003,14 @@ func (w *World) tsOracle() (listing, []tsQuery) {
 		ts = append(ts, t)
 	}
 	sort.Slice(ts, func(i, j int) bool { return ts[i] < ts[j] })
-	if len(ts) > 48 { // keep the run short: thin out evenly but keep the ends
+	maxQ := 48
+	if focus != "c15" {
+		maxQ = 10 // timestamp queries are C15's business; the other checks keep a sample
+	}
+	if len(ts) > maxQ { // keep the run short: thin out evenly but keep the ends
 		var keep []int64
-		step := float64(len(ts)) / 48
-		for i := 0; i < 48; i++ {
+		step := float64(len(ts)) / float64(maxQ)
+		for i := 0; i < maxQ; i++ {
 			keep = append(keep, ts[int(float64(i)*step)])
 		}
 		keep = append(keep, ts[len(ts)-1])
@@ -1028,6 +1054,67 @@ func (w *World) tsOracle() (listing, []tsQuery) {
 	return l, qs
 }
 
+// directed: snapshot ages in EVERY order relative to the retention threshold (every subset of
+// 2-3 snapshots expired, not only TXID prefixes), with L0 trimmed behind L1 by L0 retention,
+// followed by the snapshot pass and its cascade (Store.EnforceSnapshotRetention, or
+// DB.EnforceSnapshotRetention + EnforceRetentionByTXID with the returned floor).
+func (w *World) directed(mask int, nsnap int) {
+	w.forceL0 = "off"
+	w.opSync()
+	type sn struct{ max uint64 }
+	var snaps []sn
+	for i := 0; i < nsnap && len(w.violations) == 0; i++ {
+		w.opSnapshot()
+		snaps = append(snaps, sn{w.pos()})
+		for j, n := 0, 1+w.rng.Intn(2); j < n; j++ {
+			w.opSync()
+			w.opCompact(1)
+		}
+		if w.nlv >= 2 && w.rng.Intn(2) == 0 {
+			w.opCompact(2)
+		}
+	}
+	if len(w.violations) > 0 {
+		return
+	}
+	for i, s := range snaps {
+		age := int64(9)
+		if mask>>i&1 == 1 {
+			age = 3 // expired: threshold is 6.5
+		}
+		w.doRestamp(9, 1, s.max, age)
+	}
+	for _, f := range w.listing().level(0) {
+		w.doRestamp(0, f.min, f.max, 1)
+	}
+	w.forceL0 = "far"
+	w.opL0Ret()
+	w.forceAge = 6
+	if w.rng.Intn(3) != 0 {
+		w.opStoreSnapRet()
+	} else {
+		w.opSnapRet()
+		// the cascade by hand, with the floor the snapshot pass returned
+		fl := w.ops[len(w.ops)-1].aux
+		for lv := 1; lv <= w.nlv && len(w.violations) == 0; lv++ {
+			ctx, cancel := context.WithTimeout(ctxb, 30*time.Second)
+			err := w.ldb.EnforceRetentionByTXID(ctx, lv, ltx.TXID(fl))
+			cancel()
+			if err != nil {
+				w.violate("harness/txid-retention-error", err.Error())
+				return
+			}
+			w.trace = append(w.trace, fmt.Sprintf("txidret(%d,%d)", lv, fl))
+			w.record(5, 0, 0, int64(lv), int64(fl))
+			w.ops[len(w.ops)-1].safe = true
+			w.latestOracle("EnforceRetentionByTXID (cascade)")
+		}
+	}
+	w.counts["directed_snapshot_subset_histories"]++
+	w.counts[fmt.Sprintf("directed_mask_%d_of_%d", mask, nsnap)]++
+	w.forceL0, w.forceAge = "", -1
+}
+
 // ---- one history ----------------------------------------------------------------------------------------------
 
 type result struct {
@@ -1041,7 +1128,7 @@ type result struct {
 	err    error
 }
 
-func runHistory(dir string, rng *rand.Rand, steps int, start time.Time) (res result) {
+func runHistory(dir string, rng *rand.Rand, steps int, start time.Time, index int) (res result) {
 	w, err := newWorld(dir, rng, start)
 	if err != nil {
 		return result{err: err}
@@ -1054,6 +1141,19 @@ func runHistory(dir string, rng *rand.Rand, steps int, start time.Time) (res res
 		w.close()
 	}()
 	w.opSync()
+	if focus == "c07" && index%3 == 0 {
+		// every third history starts with a directed snapshot-subset scenario; all 12 subsets within 36 histories
+		w.style = "aged"
+		// d cycles through the 4 subsets of two snapshots and the 8 subsets of three
+		d, nsnap, mask := (index/3)%12, 2, 0
+		if d < 4 {
+			mask = d
+		} else {
+			nsnap, mask = 3, d-4
+		}
+		w.directed(mask, nsnap)
+		steps = steps / 3
+	}
 	retentionHeavy := rng.Intn(3) != 0
 	if focus == "c15" {
 		retentionHeavy = rng.Intn(3) == 0
@@ -1100,7 +1200,7 @@ func runHistory(dir string, rng *rand.Rand, steps int, start time.Time) (res res
 				w.opSync()
 			}
 		}
-		if i == mid && !w.unsafe && len(w.violations) == 0 {
+		if i == mid && focus == "c15" && !w.unsafe && len(w.violations) == 0 {
 			res.midL, res.midQ = w.tsOracle()
 			res.midPos = w.pos()
 		}
@@ -1191,7 +1291,7 @@ func emit(cw *CaseWriter, res result) {
 				}
 			}
 		}
-		if o.code == 5 && uint64(o.args[1].(int64)) > S {
+		if o.code == 5 && !o.safe && uint64(o.args[1].(int64)) > S {
 			unsafe = true
 		}
 		S = 0
@@ -1280,7 +1380,7 @@ func main() {
 			rng := NewRand(*seed*1000003 + int64(i))
 			dir := filepath.Join(base, fmt.Sprintf("h%d", i))
 			os.MkdirAll(dir, 0o755)
-			results[i] = runHistory(dir, rng, *steps, start)
+			results[i] = runHistory(dir, rng, *steps, start, i)
 			os.RemoveAll(dir)
 		}(i)
 	}
